@@ -124,6 +124,7 @@ impl<'a> BundleFn for AppRegFn<'a> {
         match flavour {
             Flavour::Ord => app.add_reactor(b, make_body_ord(inst, sh.clone())),
             Flavour::Excl => app.add_reactor(b, make_body_excl(inst, sh.clone())),
+            Flavour::ExclErr => app.add_reactor(b, make_body_excl_err(inst, sh.clone())),
             Flavour::DropErr => app.add_reactor(b, make_body_drop_err(inst, sh.clone())),
             Flavour::WarnErr => app.add_reactor(b, make_body_warn_err(inst, sh.clone())),
             Flavour::Zst => app.add_reactor(b, zst_body),
@@ -185,7 +186,7 @@ fn begin_run(sh: &Arc<Shared>, inst: Inst, ordinal: u32, local: u32, obs: Obs) -
     if fuel > 0 {
         st.fuel -= 1;
     }
-    let err = matches!(flavour, Flavour::DropErr | Flavour::WarnErr) && (ordinal as usize + inst) % 2 == 0;
+    let err = matches!(flavour, Flavour::DropErr | Flavour::WarnErr | Flavour::ExclErr) && (ordinal as usize + inst) % 2 == 0;
     RunCtx { run, acts, err }
 }
 
@@ -318,6 +319,54 @@ pub fn make_body_excl(
     }
 }
 
+pub fn make_body_excl_err(
+    inst: Inst,
+    sh: Arc<Shared>,
+) -> impl FnMut(&mut World, &mut ExclState, Local<u32>) -> WarnErr + Send + Sync + 'static {
+    let canary = Canary { inst, sh: sh.clone() };
+    let mut ordinal = 0u32;
+    move |world: &mut World, state: &mut ExclState, mut l: Local<u32>| {
+        let _ = &canary;
+        ordinal += 1;
+        *l += 1;
+        let run;
+        let acts;
+        let err;
+        {
+            let (mut r, _acc, _wr, _c) = state.get_mut(world);
+            let (obs, held) = sample(&mut r);
+            let ctx = begin_run(&sh, inst, ordinal, *l, obs);
+            drop(held);
+            run = ctx.run;
+            acts = ctx.acts;
+            err = ctx.err;
+        }
+        // Direct nested calls made from inside the body (before anything is queued): probes and every second manual
+        // run are issued with `SystemCommand::apply(world)`.
+        let mut queued: Vec<(u32, Act)> = vec![];
+        for (seq, a) in acts.iter().enumerate() {
+            let direct = matches!(a, Act::Probe(false)) || matches!(a, Act::Run(x) if x % 2 == 1);
+            if !(direct && direct_act(world, &sh, run, seq as u32, a, Entry::WorldApi)) {
+                queued.push((seq as u32, a.clone()));
+            }
+        }
+        {
+            let (_r, mut acc, mut wr, mut c) = state.get_mut(world);
+            for (seq, a) in queued.iter() {
+                exec_act(&sh, run, *seq, a, &mut c, &mut acc, Some(&mut wr));
+            }
+        }
+        sh.push(Ev::BodyEnd { run, err });
+        // Apply the commands queued by this body (the framework's cleanup command, queued on the world before
+        // this system ran, is flushed first).
+        state.apply(world);
+        if err {
+            None::<()>.result()?;
+        }
+        OK
+    }
+}
+
 pub fn make_body_ew<T: EntityWorldReactor<Local = u32>>(
     inst: Inst,
     sh: Arc<Shared>,
@@ -348,6 +397,7 @@ fn spawn_body(c: &mut Commands, inst: Inst, flavour: Flavour, sh: &Arc<Shared>) 
     match flavour {
         Flavour::Ord => c.spawn_system_command(make_body_ord(inst, sh.clone())),
         Flavour::Excl => c.spawn_system_command(make_body_excl(inst, sh.clone())),
+        Flavour::ExclErr => c.spawn_system_command(make_body_excl_err(inst, sh.clone())),
         Flavour::DropErr => c.spawn_system_command(make_body_drop_err(inst, sh.clone())),
         Flavour::WarnErr => c.spawn_system_command(make_body_warn_err(inst, sh.clone())),
         Flavour::Zst => c.spawn_system_command(zst_body),
@@ -375,6 +425,7 @@ impl<'a, 'w, 's> BundleFn for RegFn<'a, 'w, 's> {
             let tok = match flavour {
                 Flavour::Ord => c.react().once(b, make_body_ord(inst, sh.clone())),
                 Flavour::Excl => c.react().once(b, make_body_excl(inst, sh.clone())),
+                Flavour::ExclErr => c.react().once(b, make_body_excl_err(inst, sh.clone())),
                 Flavour::DropErr => c.react().once(b, make_body_drop_err(inst, sh.clone())),
                 Flavour::WarnErr => c.react().once(b, make_body_warn_err(inst, sh.clone())),
                 Flavour::Zst => c.react().once(b, zst_body),
@@ -391,6 +442,7 @@ impl<'a, 'w, 's> BundleFn for RegFn<'a, 'w, 's> {
                 let sc = match flavour {
                     Flavour::Ord => c.react().on_persistent(b, make_body_ord(inst, sh.clone())),
                     Flavour::Excl => c.react().on_persistent(b, make_body_excl(inst, sh.clone())),
+                    Flavour::ExclErr => c.react().on_persistent(b, make_body_excl_err(inst, sh.clone())),
                     Flavour::DropErr => c.react().on_persistent(b, make_body_drop_err(inst, sh.clone())),
                     Flavour::WarnErr => c.react().on_persistent(b, make_body_warn_err(inst, sh.clone())),
                     Flavour::Zst => c.react().on_persistent(b, zst_body),
@@ -401,6 +453,7 @@ impl<'a, 'w, 's> BundleFn for RegFn<'a, 'w, 's> {
                 let tok = match flavour {
                     Flavour::Ord => c.react().on_revokable(b, make_body_ord(inst, sh.clone())),
                     Flavour::Excl => c.react().on_revokable(b, make_body_excl(inst, sh.clone())),
+                    Flavour::ExclErr => c.react().on_revokable(b, make_body_excl_err(inst, sh.clone())),
                     Flavour::DropErr => c.react().on_revokable(b, make_body_drop_err(inst, sh.clone())),
                     Flavour::WarnErr => c.react().on_revokable(b, make_body_warn_err(inst, sh.clone())),
                     Flavour::Zst => c.react().on_revokable(b, zst_body),
@@ -412,6 +465,7 @@ impl<'a, 'w, 's> BundleFn for RegFn<'a, 'w, 's> {
                 match flavour {
                     Flavour::Ord => c.react().on(b, make_body_ord(inst, sh.clone())),
                     Flavour::Excl => c.react().on(b, make_body_excl(inst, sh.clone())),
+                    Flavour::ExclErr => c.react().on(b, make_body_excl_err(inst, sh.clone())),
                     Flavour::DropErr => c.react().on(b, make_body_drop_err(inst, sh.clone())),
                     Flavour::WarnErr => c.react().on(b, make_body_warn_err(inst, sh.clone())),
                     Flavour::Zst => c.react().on(b, zst_body),
